@@ -3,6 +3,8 @@ package props
 import (
 	"fmt"
 	"math/big"
+	"sync"
+	"time"
 
 	"github.com/markkurossi/mpc/bmr"
 	"github.com/markkurossi/mpc/ot"
@@ -45,7 +47,7 @@ func init() {
 	vrt.Register(&vrt.Prop{
 		ID: "C20", Level: "exploration",
 		Rule: "VOLE: case = (vector length from the boundary list or PRNG, modulus from {P-256 prime, 2^255-19, 2^256-189, 2^127-1, 65537, 251, 5, 3, 2}, base OT in {CO, ideal}, transport in {p2p.Pipe, p2p.Conn over fragmenting tap}, 1-3 Mul calls per instance); oracle (u_i - r_i) mod p == x_i*y_i mod p for every i. " +
-			"bmr.Fx: all (a,b) x repetitions; bmr.Fxk: s in {0, all-ones, random} x b; OT in {CO, COT}; oracle r xor x_b == a*b resp. b*s. Distinct = (kind, length, modulus, operands hash).",
+			"bmr.Fx: all (a,b) x repetitions; bmr.Fxk: s in {0, all-ones, random} x b; OT in {CO, COT}; 1-3 sessions of one process run concurrently, each on its own OT instance and connection, senders pausing at PRNG-chosen operations; oracle r xor x_b == a*b resp. b*s. Distinct = (kind, length, modulus, operands hash).",
 		NumCases: func(t string) int {
 			if t == "thorough" {
 				return 1200
@@ -162,7 +164,30 @@ func runC20(cs *vrt.Case) {
 	cs.Seen("moduli_bits", fmt.Sprint(p.BitLen()))
 }
 
+// c20Fx runs 1-3 Fx/Fxk sessions of one process concurrently (a BMR player
+// serves every peer from its own goroutine, each on its own OT instance and
+// connection); the senders pause at PRNG-chosen operations so that receivers
+// of different sessions are inside their OT at the same time.
 func c20Fx(cs *vrt.Case, r *vrt.Rng) {
+	nsess := 1 + r.Intn(3)
+	var mu sync.Mutex
+	var wg sync.WaitGroup
+	for k := 0; k < nsess; k++ {
+		wg.Add(1)
+		sr := r.Fork()
+		go func(k int) {
+			defer wg.Done()
+			c20FxSession(cs, &mu, sr, k, nsess)
+		}(k)
+	}
+	wg.Wait()
+	cs.Count("fx_sessions", int64(nsess))
+	if nsess > 1 {
+		cs.Count("fx_concurrent_session_groups", 1)
+	}
+}
+
+func c20FxSession(cs *vrt.Case, mu *sync.Mutex, r *vrt.Rng, sess, nsess int) {
 	useCOT := r.Bool()
 	mk := func() ot.OT {
 		if useCOT {
@@ -198,6 +223,7 @@ func c20Fx(cs *vrt.Case, r *vrt.Rng) {
 			ops = append(ops, op{k: true, b: b, s: s})
 		}
 	}
+	pr := r.Fork()
 	rr := make([]uint, len(ops))
 	rk := make([]bmr.Label, len(ops))
 	xb := make([]uint, len(ops))
@@ -208,6 +234,9 @@ func c20Fx(cs *vrt.Case, r *vrt.Rng) {
 		}
 		for i, o := range ops {
 			var err error
+			if nsess > 1 && pr.Intn(4) == 0 {
+				time.Sleep(time.Duration(pr.Intn(1500)) * time.Microsecond)
+			}
 			if o.k {
 				rk[i], err = bmr.FxkSend(snd, o.s)
 			} else {
@@ -235,7 +264,9 @@ func c20Fx(cs *vrt.Case, r *vrt.Rng) {
 		}
 		return nil
 	})
-	desc := map[string]any{"kind": "bmr.Fx/Fxk", "ops": len(ops), "ot": map[bool]string{true: "COT(CO)", false: "CO"}[useCOT]}
+	mu.Lock()
+	defer mu.Unlock()
+	desc := map[string]any{"kind": "bmr.Fx/Fxk", "ops": len(ops), "ot": map[bool]string{true: "COT(CO)", false: "CO"}[useCOT], "concurrent_sessions": nsess, "session": sess}
 	cs.SetSample(desc)
 	if pi := firstPanic(ra, rb); pi != nil {
 		if pi.InMPC {
